@@ -155,14 +155,18 @@ type vdrRun struct {
 	nFileLaunch int
 	reloc       *vdrReloc
 	knownForks  map[string]bool
+	bindEnc     map[string]map[string]vdrNodeBinding
+	nReach      int
 }
 
 type vdrSnapshot struct {
-	Tree    map[string]vdrEnt
-	Forks   []core.VerifVdrFork
-	Nodes   map[string]core.MetadataState
-	Reports map[string]json.RawMessage // relative path of _vdrkill / _vdrkill.partial -> content
-	Outs    map[string]json.RawMessage // fork path (relative) -> _outs
+	Tree  map[string]vdrEnt
+	Forks []core.VerifVdrFork
+	// forks below a relocated (linked) sub-pipeline directory
+	RelocForks []core.VerifVdrFork
+	Nodes      map[string]core.MetadataState
+	Reports    map[string]json.RawMessage // relative path of _vdrkill / _vdrkill.partial -> content
+	Outs       map[string]json.RawMessage // fork path (relative) -> _outs
 }
 
 func (v *vdrRun) hist(k string) {
@@ -284,10 +288,12 @@ func (v *vdrRun) snapshot(full bool) *vdrSnapshot {
 	if full && v.r.ps != nil {
 		s.Forks = v.r.ps.VerifVdrView()
 		if v.reloc != nil {
-			kept := s.Forks[:0]
+			var kept []core.VerifVdrFork
 			for _, f := range s.Forks {
 				if !v.underReloc(v.rel(f.Path)) {
 					kept = append(kept, f)
+				} else {
+					s.RelocForks = append(s.RelocForks, f)
 				}
 			}
 			s.Forks = kept
@@ -631,6 +637,7 @@ func (v *vdrRun) launchHook(job *TAJob) {
 			v.hist("chunk-failure-injected")
 		}
 	}
+	v.deliveryCheck(job)
 	ps := pathsInJSON(job.Args, v.psdir)
 	rels := make([]string, 0, len(ps))
 	for _, p := range ps {
@@ -888,6 +895,9 @@ func (v *vdrRun) loop() {
 			r.ps.VerifStorageBarrier()
 			v.checkOutside("C14:outside-touched", "by volatile data removal")
 			v.postKill = v.snapshot(true)
+			if v.reloc != nil {
+				v.reloc.treeAtKill = v.relocTree()
+			}
 			v.unwatchRelocated()
 			r.ps.PostProcess()
 			v.checkOutside("C14:outside-touched-by-postprocess", "by post-processing")
